@@ -33,7 +33,7 @@ func (c16) Technique() string {
 	return "deterministic simulation with write-side fault injection and crash/restart: per seeded build, the commit-time invariant (all produced children durable) is checked on every prefix of the write sequence, then every step of the write protocol is failed in turn (k-th open, k-th write torn after j bytes, k-th commit), the store is crashed at every write event and restarted on its durable state, the disk is filled at several sizes, and the input stream is failed at several bytes"
 }
 func (c16) Rule() string {
-	return "one evaluation = one complete build (BuildUnixFSFile, BuildUnixFSSymlink, BuildUnixFSDirectory plain/auto-sharded, BuildUnixFSShardedDirectory, BuildUnixFSRecursive over a temp tree, quick builder) against a fresh simulated store under one fault plan; per seeded build the plan space {k-th open fails, k-th write torn, k-th commit fails: every k} + {crash at every write event} + {ENOSPC at 4 sizes} + {source error at 4 offsets} is enumerated completely (builds up to ~120 blocks); non-trivial = the fault fired and the build had >= 2 blocks; distinct = distinct (builder, fault kind, position class first/middle/last, outcome, seam event sequence) signature"
+	return "one evaluation = one complete build (BuildUnixFSFile, BuildUnixFSSymlink, BuildUnixFSDirectory plain/empty/auto-sharded, BuildUnixFSShardedDirectory, BuildUnixFSRecursive over a temp tree rooted at a directory, a regular file or a symlink, quick builder) against a simulated store under one fault plan; per seeded build the plan space {k-th open fails, k-th write torn, k-th commit fails: every k, also with well-known error values} + {crash at every write event, restart on the durable state, rebuild} + {retry through the same link system after a transient fault} + {ENOSPC at 4 sizes} + {source error at 4 offsets} is enumerated (strided above 150/400 steps, root block always included); non-trivial = the fault fired and the build had >= 2 blocks; distinct = distinct (builder, fault kind, position class first/middle/last, outcome, seam event sequence) signature"
 }
 func (c16) Assumptions() []string {
 	return []string{
@@ -54,7 +54,7 @@ func (c16) Runs(t Tier) int {
 }
 func (c16) RecordWidths() map[string]int { return nil }
 func (c16) RequiredProbes() []string {
-	return []string{"file-build", "symlink-build", "plain-dir-build", "sharded-dir-build", "auto-sharded-dir-build", "recursive-build", "empty-directory", "recursive-rooted-at-file", "retry-after-transient-fault", "well-known-error-value", "quick-builder", "fault-on-root-commit", "torn-write", "crash-between-child-and-parent", "enospc", "source-error", "multi-level-file", "nested-shards", "empty-file"}
+	return []string{"file-build", "symlink-build", "plain-dir-build", "sharded-dir-build", "auto-sharded-dir-build", "recursive-build", "empty-directory", "recursive-rooted-at-file", "retry-after-transient-fault", "rebuild-after-crash", "well-known-error-value", "quick-builder", "fault-on-root-commit", "torn-write", "crash-between-child-and-parent", "enospc", "source-error", "multi-level-file", "nested-shards", "empty-file"}
 }
 
 type c16Scenario struct {
@@ -732,6 +732,37 @@ func (c16) Run(ts *tape.Set, tier Tier) *Result {
 			}
 			if commits > 0 && commits < sc.Blocks {
 				res.probe("crash-between-child-and-parent")
+			}
+			// bounded liveness after the fault: the process restarts on the
+			// durable state and builds again; with no further faults the build
+			// must complete, return the link of the undisturbed build, and leave
+			// its whole DAG durable
+			if p.k%3 == 0 || p.k == sc.Writes-1 {
+				rw := world.New(rs, false)
+				var rl ipld.Link
+				var rerr error
+				old := builder.DefaultLinksPerBlock
+				builder.DefaultLinksPerBlock = width
+				rp, rsite, rmsg := guard(func() { rl, _, rerr = run(&rw.LS, nil) })
+				builder.DefaultLinksPerBlock = old
+				res.Execs++
+				res.probe("rebuild-after-crash")
+				if rp {
+					fail(&p, "c16/panic@"+rsite, "rebuild after restart panicked: %s", rmsg)
+					break
+				}
+				if rerr != nil || rl == nil {
+					fail(&p, "c16/rebuild-after-crash-fails", "after restart on the durable state the build fails: link=%v err=%v", rl, rerr)
+					break
+				}
+				if rl.String() != base.link.String() {
+					fail(&p, "c16/rebuild-after-crash-differs", "after restart the build returns %s, the undisturbed build %s", rl, base.link)
+					break
+				}
+				if msg := closure(rs, rl); msg != "" {
+					fail(&p, "c16/link-before-dag-committed", "rebuild after restart returned a link but %s", msg)
+					break
+				}
 			}
 		}
 	}
